@@ -1,7 +1,7 @@
 //! C07 — 14-bit Control Change: encoding is correct and the scanner inverts it.
 //! C08 — the 14-bit CC scanner reports exactly the justified messages.
 
-use crate::explore::{explore, Sys};
+use crate::explore::{cycles_upto2, explore, pump, starts_from, Sys};
 use crate::mon::{api, api_probe, note_expected_panic};
 use crate::report::Report;
 use crate::scan::*;
@@ -314,6 +314,27 @@ pub fn run_c08(cfg: &Cfg, rep: &mut Report) {
         );
     }
     rep.set_exhaustive(false);
+    // repetition workload (counters, generations, streak heuristics)
+    {
+        let c = crate::util::rotating_channel(cfg, 3);
+        let (m, l, m2, l2) = (Ev::cc(c, 7, 5), Ev::cc(c, 39, 9), Ev::cc(c, 8, 6), Ev::cc(c, 40, 10));
+        let note = Ev::Msg(0x90 | c, 60, 1);
+        let syms = [m, l, m2, l2, note, Ev::Reset, Ev::cc((c + 1) % 16, 7, 5)];
+        let starts = starts_from(&Cc14Mon::new(), &[vec![], vec![m], vec![m, l], vec![m2, l]], rep);
+        let tail = [m, l, m2, l2];
+        let k_all = cfg.size(20, 300, 66_000) as usize;
+        if cfg.thorough && cfg.release && !cfg.as_c18 {
+            pump(cfg, rep, &starts, &cycles_upto2(&syms, &[]), k_all, &tail, true);
+        } else {
+            pump(cfg, rep, &starts, &cycles_upto2(&syms, &[]), k_all.min(300), &tail, true);
+            if !cfg.as_c18 {
+                // long runs for the single-symbol cycles (16-bit counters)
+                let singles: Vec<Vec<Ev>> = [note, m, l, Ev::Reset].iter().map(|e| vec![*e]).collect();
+                pump(cfg, rep, &starts, &singles, 66_000, &tail, false);
+                pump(cfg, rep, &starts[1..2], &[vec![Ev::Reset]], 66_000, &[l], true);
+            }
+        }
+    }
     // seeded random histories, 16 channels, full alphabet
     let total = cfg.size(2_000, 12_000_000, 300_000_000);
     par(cfg, rep, |shard, nsh, rep| {
